@@ -584,14 +584,14 @@ def tpl4(prog, R):
                                 if b.cfg.dominates(ne_edge, nl[0][0]):
                                     other = [o for o in r[1].rv.ops if o.const_int() != 10][0]
                                     dd = roots_of(b, other, du, through_calls=identity_through)
-                                    guard = any(q[0] == 'call' and q[1].callee.name == 'last' for q in dd)
+                                    guard = any(q[0] == 'call' and q[1].callee.name in ('last', 'split_last') for q in dd)
                 if not guard:
                     # `match data.last() { Some(b'\n') => {}, _ => write LF }`: a switch on the last byte itself
                     for a in cs:
                         tt = b.blocks[a].term
                         if tt.k == 'switch' and not tt.discr.is_const and 10 in [v for v, _ in tt.targets]:
                             dd = roots_of(b, tt.discr, du, through_calls=identity_through)
-                            if any(q[0] == 'call' and q[1].callee and q[1].callee.name == 'last' for q in dd):
+                            if any(q[0] == 'call' and q[1].callee and q[1].callee.name in ('last', 'split_last') for q in dd):
                                 lf_arm = [tg for v, tg in tt.targets if v == 10][0]
                                 if nl[0][0] not in b.cfg.reach_from(lf_arm, include_start=True):
                                     guard = True
